@@ -39,6 +39,10 @@
     STILL MISSING: `FreeOK (output of the MemoryAnalysis model memL)` from `Balanced` + the
     no-alias hypothesis of Props/C08.lean (different statement abstraction, `MStmt`); the tie
     reports `freeOK` for every compiled procedure instead.
+    * CALLS (wave 3): every theorem above covers statement lists with calls of non-instruction
+      sub-procedures (all argument kinds: size / index, dense tensors, windows — variables and
+      window expressions —, scalars by reference `x` / `&x`), under `CallsOKL` (see
+      `compL_simulation_partial`); example `ex3Body` below.
   Every theorem is followed by an `example` on a concrete program.
 -/
 import ExoModel.Lemmas.CSimFreeStmt
@@ -58,22 +62,32 @@ open Exo.Range (IExpr Op Val Inside)
     (finding F6); (2) `execCL false`: `useAfterFree` / `doubleFree` / `badFree` / `leak` are not
     monitored (finding F7 makes the monitored statement false without a further hypothesis).
     `Fresh`: the binders of `ss` are distinct and new (true of front-end output; needed because
-    `envtyp` is a flat dict and shapes are re-evaluated at every access). -/
+    `envtyp` is a flat dict and shapes are re-evaluated at every access).
+    CALLS of non-instruction sub-procedures are covered: `execP` (bindArgs, noAlias, checkShapes,
+    checkPreds, body, leave) is simulated by the C call `f(ctxt,…)` of the callee compiled with ITS
+    environment; `modOK` includes the callees.  `CallsOKL`: for every call site (at any depth)
+    `FormalsOK` (distinct formals, shapes are index arithmetic, the callee's binders are new) and
+    `BoundsOK` (the bounds the callee's range environment holds for its size arguments — SMT
+    derived from its preconditions in the real code — are true whenever the arguments are bound
+    and `checkPreds` succeeded).  `checkPreds` success is what makes the folded `_known_strides` the
+    actual strides (`known_sound`); a call whose callee assertion does NOT hold (finding F13:
+    `replace` does not establish callee assertions) makes the reference run fail with
+    `assertFail`, so it is outside the hypothesis `execL … = ok` — nothing is claimed for it. -/
 theorem compL_simulation_partial {V : Type} [DataAlg V] (ext : String → List V → V)
     {Γ Γ' : CEnv} {ss : List Stmt} {cs : List CStmt} {σ σ' : State V} {c : CState V}
     (hc : compL Γ ss = .ok (cs, Γ')) (hmod : Γ'.modOK = true) (hne : Γ.renv ≠ [])
-    (hfresh : Fresh (bindersL ss) Γ σ) (hrep : Rep Γ σ c) (hex : execL ext ss σ = .ok σ') :
+    (hfresh : Fresh (bindersL ss) Γ σ) (hcalls : CallsOKL V Γ.cb ss) (hrep : Rep Γ σ c) (hex : execL ext ss σ = .ok σ') :
     ∃ c', execCL false cs c = .ok c' ∧ Rep Γ' σ' c' := by
-  obtain ⟨c', h1, h2, _, _⟩ := simL ext ss hc hmod hne hex hrep hfresh
+  obtain ⟨c', h1, h2, _, _⟩ := simL ext Γ.cb ss hc hmod hne hex hrep hfresh rfl hcalls
   exact ⟨c', h1, h2⟩
 
 /-- hence: equal final heaps and configuration -/
 theorem compL_final_state_partial {V : Type} [DataAlg V] (ext : String → List V → V)
     {Γ Γ' : CEnv} {ss : List Stmt} {cs : List CStmt} {σ σ' : State V} {c : CState V}
     (hc : compL Γ ss = .ok (cs, Γ')) (hmod : Γ'.modOK = true) (hne : Γ.renv ≠ [])
-    (hfresh : Fresh (bindersL ss) Γ σ) (hrep : Rep Γ σ c) (hex : execL ext ss σ = .ok σ') :
+    (hfresh : Fresh (bindersL ss) Γ σ) (hcalls : CallsOKL V Γ.cb ss) (hrep : Rep Γ σ c) (hex : execL ext ss σ = .ok σ') :
     ∃ c', execCL false cs c = .ok c' ∧ c'.heap = σ'.heap ∧ c'.cfg = σ'.cfg ∧ c'.ints = σ'.env := by
-  obtain ⟨c', h1, h2⟩ := compL_simulation_partial ext hc hmod hne hfresh hrep hex
+  obtain ⟨c', h1, h2⟩ := compL_simulation_partial ext hc hmod hne hfresh hcalls hrep hex
   exact ⟨c', h1, h2.heap, h2.cfg, h2.ints⟩
 
 /-- the procedure body as a block (`execB` / `execCB`): the final C state is the final reference
@@ -81,10 +95,10 @@ theorem compL_final_state_partial {V : Type} [DataAlg V] (ext : String → List 
 theorem body_simulation_partial {V : Type} [DataAlg V] (ext : String → List V → V)
     {Γ Γ' : CEnv} {ss : List Stmt} {cs : List CStmt} {σ σ' : State V} {c : CState V}
     (hc : compL Γ ss = .ok (cs, Γ')) (hmod : Γ'.modOK = true) (hne : Γ.renv ≠ [])
-    (hfresh : Fresh (bindersL ss) Γ σ) (hrep : Rep Γ σ c) (hex : execB ext ss σ = .ok σ') :
+    (hfresh : Fresh (bindersL ss) Γ σ) (hcalls : CallsOKL V Γ.cb ss) (hrep : Rep Γ σ c) (hex : execB ext ss σ = .ok σ') :
     ∃ c', execCB false cs c = .ok c' ∧ Rep Γ' σ' c' := by
   obtain ⟨σ1, hs1, rfl⟩ := map_ok hex
-  obtain ⟨c1, h1, h2⟩ := compL_simulation_partial ext hc hmod hne hfresh hrep hs1
+  obtain ⟨c1, h1, h2⟩ := compL_simulation_partial ext hc hmod hne hfresh hcalls hrep hs1
   have hb : execCB false cs c = .ok (⟨c.ints, c.vals, c1.heap.take c.heap.length,
       c1.stat.take c.heap.length, c1.cfg⟩ : CState V) := by
     simp only [execCB, h1, ok_bind, leaveC, Bool.false_and, Bool.false_eq_true, if_false]; rfl
@@ -96,10 +110,10 @@ theorem simulated_run_no_oob_no_divzero_partial {V : Type} [DataAlg V]
     (ext : String → List V → V) {Γ Γ' : CEnv} {ss : List Stmt} {cs : List CStmt}
     {σ σ' : State V} {c : CState V}
     (hc : compL Γ ss = .ok (cs, Γ')) (hmod : Γ'.modOK = true) (hne : Γ.renv ≠ [])
-    (hfresh : Fresh (bindersL ss) Γ σ) (hrep : Rep Γ σ c) (hex : execL ext ss σ = .ok σ') :
+    (hfresh : Fresh (bindersL ss) Γ σ) (hcalls : CallsOKL V Γ.cb ss) (hrep : Rep Γ σ c) (hex : execL ext ss σ = .ok σ') :
     execCL false cs c ≠ .error .oobC ∧ execCL false cs c ≠ .error .divZeroC ∧
     execCL false cs c ≠ .error .stuck := by
-  obtain ⟨c', h1, _⟩ := compL_simulation_partial ext hc hmod hne hfresh hrep hex
+  obtain ⟨c', h1, _⟩ := compL_simulation_partial ext hc hmod hne hfresh hcalls hrep hex
   rw [h1]; exact ⟨by simp, by simp, by simp⟩
 
 /-- **all monitors on**, for compiled code without `malloc` / `free` (no tensor allocation;
@@ -110,10 +124,10 @@ theorem simulated_run_no_oob_no_divzero_partial {V : Type} [DataAlg V]
 theorem compL_simulation_monitored_partial {V : Type} [DataAlg V] (ext : String → List V → V)
     {Γ Γ' : CEnv} {ss : List Stmt} {cs : List CStmt} {σ σ' : State V} {c : CState V}
     (hc : compL Γ ss = .ok (cs, Γ')) (hmod : Γ'.modOK = true) (hne : Γ.renv ≠ [])
-    (hfresh : Fresh (bindersL ss) Γ σ) (hrep : Rep Γ σ c) (hex : execL ext ss σ = .ok σ')
+    (hfresh : Fresh (bindersL ss) Γ σ) (hcalls : CallsOKL V Γ.cb ss) (hrep : Rep Γ σ c) (hex : execL ext ss σ = .ok σ')
     (hnm : noMallocL cs = true) (hst : AllStack c) :
     ∃ c', execCL true cs c = .ok c' ∧ Rep Γ' σ' c' ∧ AllStack c' := by
-  obtain ⟨c', h1, h2⟩ := compL_simulation_partial ext hc hmod hne hfresh hrep hex
+  obtain ⟨c', h1, h2⟩ := compL_simulation_partial ext hc hmod hne hfresh hcalls hrep hex
   obtain ⟨h3, h4⟩ := monL_eq cs hnm hst h1
   exact ⟨c', h3, h2, h4⟩
 
@@ -136,10 +150,10 @@ theorem compL_simulation_monitored_full_partial {V : Type} [DataAlg V]
     (ext : String → List V → V) {Γ Γ' : CEnv} {ss : List Stmt} {cs : List CStmt}
     {σ σ' : State V} {c : CState V} {vis0 : List Sym}
     (hc : compL Γ ss = .ok (cs, Γ')) (hmod : Γ'.modOK = true) (hne : Γ.renv ≠ [])
-    (hfresh : Fresh (bindersL ss) Γ σ) (hrep : Rep Γ σ c) (hex : execB ext ss σ = .ok σ')
+    (hfresh : Fresh (bindersL ss) Γ σ) (hcalls : CallsOKL V Γ.cb ss) (hrep : Rep Γ σ c) (hex : execB ext ss σ = .ok σ')
     (hfree : FreeOK Γ vis0 ss = true) (hentry : Entry vis0 c) :
     ∃ c', execCB true cs c = .ok c' ∧ Rep Γ' σ' c' := by
-  obtain ⟨c', h1, h2⟩ := body_simulation_partial ext hc hmod hne hfresh hrep hex
+  obtain ⟨c', h1, h2⟩ := body_simulation_partial ext hc hmod hne hfresh hcalls hrep hex
   have hf : freeOK vis0 cs = true := by
     simp only [FreeOK, hc] at hfree; exact hfree
   exact ⟨c', freeOK_sound hf hentry h1, h2⟩
@@ -220,7 +234,8 @@ theorem repVal_tensor {Γ : CEnv} {env : List (Sym × Int)} {a : Sym} {v : View}
   rw [hrefs] at h; cases h
 
 theorem exMod : exΓ'.modOK = true := by decide +kernel
-theorem exNe : exΓ.renv ≠ [] := by simp [exΓ, initEnv, Range.Env.initWith]
+theorem exNe : exΓ.renv ≠ [] := by simp [exΓ, initEnv, initEnvOf, Range.Env.initWith]
+theorem exCalls : CallsOKL Int exΓ.cb exBody := by simp [exBody, CallsOKL, CallsOKS]
 theorem exFresh : Fresh (bindersL exBody) exΓ exσ :=
   ⟨by decide, by decide, by decide, by decide, by decide⟩
 theorem exRng : Range.Inside (ρS exσ) exΓ.renv.lookup := by
@@ -253,20 +268,20 @@ theorem exRep : Rep exΓ exσ exC := by
     · simp [exσ, lookupSym, hy, hx] at h
 
 example : ∃ c', execCL false exCs exC = .ok c' ∧ Rep exΓ' exσ' c' :=
-  compL_simulation_partial extI exHc exMod exNe exFresh exRep exHex
+  compL_simulation_partial extI exHc exMod exNe exFresh exCalls exRep exHex
 example : ∃ c', execCL false exCs exC = .ok c' ∧
     c'.heap = [[some 1, some 2, some 3], [some 12, some 24, some 36]] := by
-  obtain ⟨c', h1, h2, _, _⟩ := compL_final_state_partial extI exHc exMod exNe exFresh exRep exHex
+  obtain ⟨c', h1, h2, _, _⟩ := compL_final_state_partial extI exHc exMod exNe exFresh exCalls exRep exHex
   exact ⟨c', h1, by rw [h2]; exact exHeap⟩
 /-- the monitored run of the same compiled program, evaluated -/
 example : (match execCB true exCs exC with | .ok c' => c'.heap == [[some 1, some 2, some 3], [some 12, some 24, some 36]] | .error _ => false) = true := by
   decide +kernel
 
 example : ∃ c', execCB false exCs exC = .ok c' ∧ Rep exΓ' (State.leave exσ exσ') c' :=
-  body_simulation_partial extI exHc exMod exNe exFresh exRep (by rw [execB, exHex]; rfl)
+  body_simulation_partial extI exHc exMod exNe exFresh exCalls exRep (by rw [execB, exHex]; rfl)
 example : execCL false exCs exC ≠ .error .oobC ∧ execCL false exCs exC ≠ .error .divZeroC ∧
     execCL false exCs exC ≠ .error .stuck :=
-  simulated_run_no_oob_no_divzero_partial extI exHc exMod exNe exFresh exRep exHex
+  simulated_run_no_oob_no_divzero_partial extI exHc exMod exNe exFresh exCalls exRep exHex
 
 /-- the example satisfies the static `free` discipline … -/
 theorem exFreeOK : FreeOK exΓ [n, x, y] exBody = true := by decide +kernel
@@ -286,14 +301,14 @@ theorem exEntry : Entry [n, x, y] exC := by
       · simp [exC, lookupSym, h1, h2] at h
 
 example : execCB true exCs exC = execCB false exCs exC := by
-  obtain ⟨c', h1, _⟩ := body_simulation_partial extI exHc exMod exNe exFresh exRep
+  obtain ⟨c', h1, _⟩ := body_simulation_partial extI exHc exMod exNe exFresh exCalls exRep
     (show execB extI exBody exσ = .ok (State.leave exσ exσ') by rw [execB, exHex]; rfl)
   rw [h1, freeOK_sound_c (by simpa [FreeOK, exHc] using exFreeOK) exEntry h1]
 
 /-- … hence the fully monitored run of the compiled loop nest (malloc, window, reduce, free)
     succeeds and represents the reference result -/
 example : ∃ c', execCB true exCs exC = .ok c' ∧ Rep exΓ' (State.leave exσ exσ') c' :=
-  compL_simulation_monitored_full_partial extI exHc exMod exNe exFresh exRep
+  compL_simulation_monitored_full_partial extI exHc exMod exNe exFresh exCalls exRep
     (by rw [execB, exHex]; rfl) exFreeOK exEntry
 
 /-! ### the same loop with a scalar instead of the tensor allocation: all monitors on -/
@@ -323,7 +338,7 @@ theorem ex2Fresh : Fresh (bindersL ex2Body) exΓ exσ :=
   ⟨by decide, by decide, by decide, by decide, by decide⟩
 
 example : ∃ c', execCL true ex2Cs exC = .ok c' ∧ Rep ex2Γ' ex2σ' c' ∧ AllStack c' :=
-  compL_simulation_monitored_partial extI ex2Hc (by decide +kernel) exNe ex2Fresh exRep ex2Hex
+  compL_simulation_monitored_partial extI ex2Hc (by decide +kernel) exNe ex2Fresh (by simp [ex2Body, CallsOKL, CallsOKS]) exRep ex2Hex
     (by decide +kernel) (by intro s hs; simp [exC] at hs; exact hs)
 example : ex2σ'.heap = [[some 1, some 2, some 3], [some 12, some 24, some 36]] := by decide +kernel
 
@@ -381,5 +396,87 @@ theorem printCE_compAst (env : Sym → String) : ∀ (k : CIR) (prec : Nat),
 
 example : printCE (fun s => s.name) (compAst (.bin .div (.bin .sub (.read i false) (.const 3) false)
     (.const 2) false)) 0 = "exo_floor_div((i - 3), 2)" := by decide
+
+/-! ### a call: window literal, dense pointer, local scalar by reference, size -/
+
+def m : Sym := ⟨"m", 10⟩
+def src : Sym := ⟨"src", 11⟩
+def dst : Sym := ⟨"dst", 12⟩
+def acc : Sym := ⟨"acc", 13⟩
+def j : Sym := ⟨"j", 14⟩
+/-- `def scale2(m: size, src: [f32][m], dst: f32[m], acc: f32):
+       for j in seq(0, m): dst[j] = src[j] * 2.0; acc += src[j]` -/
+def scale2 : Proc :=
+  .mk "scale2" [⟨m, .ctrl .size⟩, ⟨src, .tensor [rd m] true⟩, ⟨dst, .tensor [rd m] false⟩, ⟨acc, .scalar⟩] []
+    [.loop j (li 0) (rd m)
+      [.assign dst [rd j] (.binop .mul (.read src [rd j]) (.lit (.data 2 1))),
+       .reduce acc [] (.read src [rd j])] false]
+/-- `s: f32; s = 0.0; scale2(n, x[0:n], y, s); y[0] += s` -/
+def ex3Body : List Stmt :=
+  [.alloc s [], .assign s [] (.lit (.data 0 1)),
+   .call scale2 [rd n, .win x [.interval (li 0) (rd n)], rd y, rd s],
+   .reduce y [li 0] (.read s []), .free s]
+def ex3Cb : List (String × List (Sym × Range.Bound)) := [("scale2", [(m, (some 1, none))])]
+def ex3Γ : CEnv := initEnv exProc [(n, (some 1, none))] ex3Cb
+def ex3Out := compL ex3Γ ex3Body
+def ex3Cs : List CStmt := match ex3Out with | .ok r => r.1 | .error _ => []
+def ex3Γ' : CEnv := match ex3Out with | .ok r => r.2 | .error _ => ex3Γ
+set_option maxRecDepth 100000 in
+theorem ex3Hc : compL ex3Γ ex3Body = .ok (ex3Cs, ex3Γ') := by rfl
+def ex3Run := execL extI ex3Body exσ
+def ex3σ' : State Int := match ex3Run with | .ok s => s | .error _ => exσ
+theorem ex3Hex : execL extI ex3Body exσ = .ok ex3σ' := by
+  have h : (match ex3Run with | .ok _ => true | .error _ => false) = true := by decide +kernel
+  unfold ex3σ'
+  cases hr : ex3Run with
+  | error e => rw [hr] at h; cases h
+  | ok s => exact hr
+theorem ex3Fresh : Fresh (bindersL ex3Body) ex3Γ exσ :=
+  ⟨by decide, by decide, by decide, by decide, by decide⟩
+theorem ex3Rep : Rep ex3Γ exσ exC := exRep.change (fun _ _ _ => rfl) rfl rfl exRep.rng
+theorem ex3Ne : ex3Γ.renv ≠ [] := by simp [ex3Γ, initEnv, initEnvOf, Range.Env.initWith]
+
+theorem ex3Calls : CallsOKL Int ex3Γ.cb ex3Body := by
+  simp only [ex3Body, scale2, CallsOKL, CallsOKS, and_true, true_and]
+  refine ⟨⟨by decide, by decide, by decide, by decide⟩, ?_⟩
+  intro σc hint hbound _
+  apply Range.inside_initWith
+  intro a b h
+  have hb : (a, b) = (m, ((some 1, none) : Range.Bound)) := by
+    simpa [ex3Γ, initEnv, initEnvOf, ex3Cb, cbLookup] using h
+  simp only [Prod.mk.injEq] at hb
+  obtain ⟨rfl, rfl⟩ := hb
+  have hs := hbound ⟨m, .ctrl .size⟩ (by simp) .size rfl
+  cases hl : lookupSym m σc.env with
+  | none => rw [hl] at hs; cases hs
+  | some v =>
+      obtain ⟨fa, k, hmem, hname, hty, hpos⟩ := hint m v hl
+      have hk : k = .size := by
+        simp only [List.mem_cons, List.not_mem_nil, or_false] at hmem
+        rcases hmem with rfl | rfl | rfl | rfl
+        · simpa using hty.symm
+        · exact absurd hname (by decide)
+        · exact absurd hname (by decide)
+        · exact absurd hname (by decide)
+      refine ⟨fun l hl' => ?_, fun h hh => by cases hh⟩
+      simp only [Option.some.injEq] at hl'; subst hl'
+      have := hpos hk
+      simp only [ρS, ρOfL, hl, Option.getD_some]
+      omega
+
+theorem ex3FreeOK : FreeOK ex3Γ [n, x, y] ex3Body = true := by decide +kernel
+
+/-- the caller's monitored C run of `s = 0; scale2(ctxt,n,(struct exo_win_1f32){ &x[0], { 1 } },y,&s);
+    y[0] += s;` represents the reference result -/
+example : ∃ c', execCB true ex3Cs exC = .ok c' ∧ Rep ex3Γ' (State.leave exσ ex3σ') c' :=
+  compL_simulation_monitored_full_partial extI ex3Hc (by decide +kernel) ex3Ne ex3Fresh ex3Calls
+    ex3Rep (by rw [execB, ex3Hex]; rfl) ex3FreeOK exEntry
+example : (State.leave exσ ex3σ').heap = [[some 1, some 2, some 3], [some 8, some 4, some 6]] := by
+  decide +kernel
+example : (match printL ⟨"float", "f32"⟩ [⟨[], [(n, "n"), (x, "x"), (y, "y")]⟩] ex3Cs with
+    | .ok r => r.1 | .error e => [e]) =
+    ["float s;", "s = lit(0/1);", "scale2(ctxt,n,(struct exo_win_1f32){ &x[0], { 1 } },y,&s);",
+     "y[0] += s;"] := by decide +kernel
+
 
 end Exo.CompileS.C02Stmt
